@@ -201,3 +201,21 @@ func verifOutcome(err error) string {
 	}
 	return "value"
 }
+
+// verifAccess is called before every raw element access of a typed array (the ptr() functions, which use
+// unsafe.Add without a bounds check): an access outside the current backing slice panics with a recognisable
+// payload BEFORE the pointer is dereferenced.
+type VerifOutOfBounds struct{ DataLen, ByteOff, N int }
+
+func (e VerifOutOfBounds) Error() string {
+	return fmt.Sprintf("VERIF-OOB: access [%d,%d) outside buffer of %d bytes", e.ByteOff, e.ByteOff+e.N, e.DataLen)
+}
+
+var VerifAccessCount uint64
+
+func verifAccess(dataLen, byteOff, n int) {
+	atomic.AddUint64(&VerifAccessCount, 1)
+	if byteOff < 0 || byteOff+n > dataLen {
+		panic(VerifOutOfBounds{dataLen, byteOff, n})
+	}
+}
